@@ -11,6 +11,7 @@ from vf.simk.world import World, Thread, FD, Mapping, oserr
 
 ID = "C03"
 LEVEL = "fault_enumeration"
+ALT_MOUNT = True          # run once more with procfs mounted at /hostproc (vf/child.py)
 DEVS = ("vanish", "zombie", "eacces", "eperm", "halfgone")
 PSUTIL_ERRS = ("NoSuchProcess", "ZombieProcess", "AccessDenied")
 CACHED_OK = {"pid", "create_time"}
